@@ -61,7 +61,7 @@ type EventBus struct {
 	afterPublish     PublishHook
 	beforePublishCtx PublishHookContext
 	afterPublishCtx  PublishHookContext
-	wg               sync.WaitGroup
+	wg               inflight
 
 	// Optional persistence fields (nil if not using persistence)
 	store                   EventStore
@@ -77,6 +77,41 @@ type EventBus struct {
 
 	// Optional observability (metrics & tracing)
 	observability Observability
+}
+
+// inflight counts running async handlers. Unlike sync.WaitGroup it may be
+// incremented from zero while other goroutines are blocked in wait, which is
+// what Publish concurrent with Wait does.
+type inflight struct {
+	mu   sync.Mutex
+	cond *sync.Cond
+	n    int
+}
+
+func (c *inflight) add() {
+	c.mu.Lock()
+	c.n++
+	c.mu.Unlock()
+}
+
+func (c *inflight) done() {
+	c.mu.Lock()
+	c.n--
+	if c.n == 0 && c.cond != nil {
+		c.cond.Broadcast()
+	}
+	c.mu.Unlock()
+}
+
+func (c *inflight) wait() {
+	c.mu.Lock()
+	if c.cond == nil {
+		c.cond = sync.NewCond(&c.mu)
+	}
+	for c.n > 0 {
+		c.cond.Wait()
+	}
+	c.mu.Unlock()
 }
 
 // TypeNamer is an optional interface that events can implement to provide
@@ -360,10 +395,10 @@ func PublishContext[T any](bus *EventBus, ctx context.Context, event T) {
 
 		if h.async {
 			wg.Add(1)
-			bus.wg.Add(1)
+			bus.wg.add()
 			go func(handler *internalHandler) {
 				defer wg.Done()
-				defer bus.wg.Done()
+				defer bus.wg.done()
 
 				// Check context before executing
 				select {
@@ -460,7 +495,7 @@ func HandlerCount[T any](bus *EventBus) int {
 
 // Wait blocks until all async handlers complete
 func (bus *EventBus) Wait() {
-	bus.wg.Wait()
+	bus.wg.wait()
 }
 
 // callHandlerWithContext calls a handler with proper type checking and panic recovery
